@@ -20,7 +20,7 @@ CHECKS = {
          "All states within depth 6/8 and 4/5 creations, three storages per world rotated over all kinds and all registration paths (register, register_with_storage, ReadStorage/WriteStorage::setup, Dispatcher::setup, two paths at once); after every transition every storage must hold exactly the model's components (death purges everywhere, survivors untouched, reused index empty).",
          "DESIGN.md §4 C05"),
  "C09": ("mc-hist", "explicit-state BFS over real World histories (alphabet E3: lazy queue), FIFO reference model",
-         "All histories to depth 5/6 over lazy insert / insert_all / remove / exec (logging, nesting, queueing inserts, creating and deleting entities immediately and deferred) / lazy builders mixed with direct operations and maintain; execution log, closure results and storage contents are compared with a FIFO queue model after every maintain; every history ends with two extra maintains that must find nothing left over.",
+         "All histories to depth 5/6 over lazy insert / insert_all / remove / exec (logging, nesting, queueing inserts, creating and deleting entities immediately and deferred) / lazy builders (also held in a variable while another update for the same entity is queued), closures queued from a rayon worker thread, a closure chain 70 deep, one batch of 40 unsorted pairs with repeated targets, mixed with direct operations and maintain; execution log, closure results and storage contents are compared with a FIFO queue model after every maintain; every history ends with two extra maintains that must find nothing left over.",
          "DESIGN.md §4 C09"),
  "C17": ("mc-hist", "explicit-state BFS over real World histories (alphabet E1), peak-bound invariant",
          "Same exhaustive state graph as C01 plus entities created inside lazy closures (they must find the indices freed by the same maintain); at every creation (and for a tail probe that first deletes an entity whose component destructor panics - caught - and then drains the free list) the returned index must be below the running peak of not-yet-dead entities. Second part (mc-conc): under every interleaving of small concurrent deferred-creation programs a never-used index is taken only once the free list is exhausted.",
@@ -38,7 +38,7 @@ CHECKS = {
          "For every history to depth 3/4 over insert/overwrite/remove/entry removal/drain/clear/entity deletion (single, batch, deferred+maintain)/lazy overwrite/builder, for every storage kind: one extra execution per destructor invocation inside the last operation or the teardown, with that invocation panicking; after catch_unwind the ledger must show no second destruction, no observation may return a destroyed value, follow-up operations on untouched entities and the second storage must behave as the model says, a scripted map workout on the re-synchronised storage must agree with a plain map after every step, a next frame (freed indices recycled, newcomers given components, unrelated deletion passes immediately and through maintain) must leave the newcomers' values intact, and teardown must not panic again. Change sets: every add sequence up to length 4/5 followed by clear / drop / full or partial consumption, every destructor call panicking once.",
          "DESIGN.md §4 C19"),
  "C06": ("mc-join", "exhaustive shape enumeration: every membership assignment x member form on the real join machinery",
-         "For each of the 18 storage kinds, every content subset of a universe straddling every layer boundary of the hierarchical bit set (0,1,63,64,4095,4096,262143,262144; entities alive, awaiting maintain, pending deletion, dead, dead-and-reused) paired with every subset as a partner bit set: sequential, lending and tuple joins in both member positions, negated, optional, restricted, mutable (marker written through every item, then every direct lookup checked), entries, drain (also consumed through count / nth / skip+step_by: stepped-over items are visited); lookup by entity / by index through the lending iterator for live, dead and stale handles; bit-set combinators and the entities resource; mixed triples; tuple arities 1..16 with every member being the deciding one; compact universes in every insertion order (dense tables permuted).",
+         "For each of the 18 storage kinds, every content subset of a universe straddling every layer boundary of the hierarchical bit set (0,1,63,64,4095,4096,262143,262144; entities alive, awaiting maintain, pending deletion, dead, dead-and-reused) paired with every subset as a partner bit set: sequential, lending and tuple joins in both member positions, negated, optional, restricted, mutable (marker written through every item, then every direct lookup checked), entries, drain (also consumed through count / nth / skip+step_by: stepped-over items are visited); lookup by entity / by index through the lending iterator for live, dead and stale handles; bit-set combinators, bit sets and change sets held as world resources (Fetch / Read / ReadExpect / WriteExpect wrappers) and the entities resource (also on a universe where one index's last occupant was created and deleted through the shared resource within one frame); mixed triples; tuple arities 1..16 with every member being the deciding one; compact universes in every insertion order (dense tables permuted).",
          "DESIGN.md §4 C06"),
  "C07": ("mc-join", "exhaustive enumeration of every split-decision tree of the real JoinProducer (hook H5) per membership assignment",
          "For every storage kind, content subset and partner bit set over the boundary universe: every tree of split/fold decisions that rayon's bridge can take is driven over the real JoinProducer::split / fold_with; the union of the leaves' items must equal the sequential join's items (none missing, none twice), for shared, mutable, restricted, negated, optional (also optional-negated) and entities members; mutations made by leaves must be visible afterwards on exactly the yielded entities. In addition the public par_join() iterator (drive_unindexed + rayon's bridge, which the split-tree driver bypasses) is run on real pools of 1/3/8 (thorough: 1/2/3/8/64) threads over every content x partner mask and compared with the sequential join.",
@@ -50,26 +50,26 @@ CHECKS = {
          "Every sequence of up to 4 (quick) / 6 (thorough) pairs over 3 entities x 2 amounts (indices around 63/64 and around 4095/4096/262144, and compact indices), accumulated with a non-associative, non-commutative AddAssign, built by collect, by add, by collect+extend at every split point and by fill-clear-add; a family of 24-64-pair sequences; shared, mutable, lending and consuming (full and partial) joins alone and paired with a storage of every content; per entity the amounts must be concatenated in arrival order, each yielded exactly once, and the amount ledger must balance.",
          "DESIGN.md §4 C16"),
  "C10": ("mc-conc", "stateless exhaustive schedule exploration (preemption-bounded DFS, bound iterated) of real threads as coroutines",
-         "Thousands of small programs (2 threads x 1-2 operations, 3 threads x 1 operation over create / create_iter / build_entity built and dropped / delete / is_alive / join / lazy exec, insert, builder) on initial worlds with 0-2 free indices, forced to collide on the same free list, counter and entities; every sequentially consistent interleaving of the instrumented shared-memory steps with <=2 (quick) / <=3 (thorough) preemptions, unbounded for the short programs; per execution: handles pairwise distinct, alive for their creator, deletion requests for live handles succeed, after maintain alive = initial + created - requested, every lazy action ran once in per-thread order, a second maintain changes nothing; then two sequential frames on the state left behind: creations through shared access digging through the whole free list must not meet a living handle, and the exclusive paths (failing batch with a repeated handle, stillborn builder, delete_all, new creations, maintain) must leave exactly the new entities alive.",
+         "Thousands of small programs (2 threads x 1-2 operations, 3 threads x 1 operation over create / create_iter / build_entity built and dropped / delete / is_alive / join / lazy exec, insert, builder, a queued action that re-enters World::maintain) on initial worlds with 0-2 free indices, forced to collide on the same free list, counter and entities; every sequentially consistent interleaving of the instrumented shared-memory steps with <=2 (quick) / <=3 (thorough) preemptions, unbounded for the short programs; per execution: handles pairwise distinct, alive for their creator, deletion requests for live handles succeed, after maintain alive = initial + created - requested, every lazy action ran once in per-thread order, a second maintain changes nothing; then two sequential frames on the state left behind: creations through shared access digging through the whole free list must not meet a living handle, and the exclusive paths (failing batch with a repeated handle, stillborn builder, delete_all, new creations, maintain) must leave exactly the new entities alive.",
          "DESIGN.md §4 C10"),
  "C11": ("mc-disp", "program enumeration + explicit-state exploration of the stage model extracted from the real DispatcherBuilder, traces replayed on the real Dispatcher",
-         "(a) for every storage-handle shape (ReadStorage/WriteStorage over all 18 storage kinds, Entities, Read<LazyUpdate>, tuples) the resources actually borrowed by fetch() are measured and must equal reads()/writes() exactly, also under a guard that holds every undeclared resource exclusively during fetch(), and through the handle's life cycle (copy, clone_from across two worlds, drop in both orders: the borrow state follows and ends at nothing borrowed); (b) every system graph with <=3 (quick) / <=4 (thorough) systems x access shapes x every subset of dependency edges x every barrier placement goes through the real DispatcherBuilder, whose stage structure is the model: every interleaving of enter/exit events it allows is explored and no two simultaneously active systems may conflict on the measured borrows, dependencies hold, every system exactly once; (c) the model traces (all traces for small graphs, maximal-overlap traces otherwise) are replayed with gates on the real Dispatcher over a rayon pool: every system must become runnable exactly when the model says, and no panic may escape dispatch (small graphs also ungated, and graphs of entity / lazy-only systems also on a world built by World::empty() + Dispatcher::setup).",
+         "(a) a component whose storage has no default (register_with_storage) is set up and dispatched twice; for every storage-handle shape (ReadStorage/WriteStorage over all 18 storage kinds, Entities, Read<LazyUpdate>, tuples) the resources actually borrowed by fetch() are measured and must equal reads()/writes() exactly, also under a guard that holds every undeclared resource exclusively during fetch(), and through the handle's life cycle (copy, clone_from across two worlds, drop in both orders: the borrow state follows and ends at nothing borrowed); (b) every system graph with <=3 (quick) / <=4 (thorough) systems x access shapes x every subset of dependency edges x every barrier placement goes through the real DispatcherBuilder, whose stage structure is the model: every interleaving of enter/exit events it allows is explored and no two simultaneously active systems may conflict on the measured borrows, dependencies hold, every system exactly once; (c) the model traces (all traces for small graphs, maximal-overlap traces otherwise) are replayed with gates on the real Dispatcher over a rayon pool: every system must become runnable exactly when the model says, and no panic may escape dispatch (small graphs also ungated, and graphs of entity / lazy-only systems also on a world built by World::empty() + Dispatcher::setup).",
          "DESIGN.md §4 C11"),
  "C14": ("mc-sl", "exhaustive enumeration of small worlds through a real serialise/deserialise round trip",
          "Every world with 3 (quick) / 4 (thorough) entities: every marked subset x every subset carrying a plain component x every reference graph of a derive-generated reference component ((n+1)^n graphs: self loops, cycles, forward references), with a hash-map-backed plain component and a hand-written reference component varied along; through SimpleMarker and UuidMarker, serialize and serialize_recursive, JSON with every permutation of the records and RON, into a new and into an emptied world, with marker ids chosen by mark() or by the caller, source entities awaiting maintain on recycled indices, and source worlds whose marker allocator has a history (a marked helper deleted mid-marking, world and allocator maintained); the loaded world must hold exactly one entity per marked (resp. reachable) source entity with equal components, references pointing at the image of their target, and nothing else.",
          "DESIGN.md §4 C14"),
  "C15": ("mc-sl", "explicit-state BFS over mark / delete / maintain / allocator-maintain / save / load histories on the real World",
-         "All states within depth 7/8 and 4/5 entity creations (creations made by loads included) over create (immediate, deferred), mark, set component, delete (immediate, deferred), maintain, allocator.maintain, serialise, deserialise of the world's own output and of two canned data sets from another world (one with ids above the counter); after every transition: live entities carry pairwise distinct marker ids, marking a marked entity returns its marker, a load updates known ids in place (same handle, components replaced, absent ones removed), creates entities only for unknown ids, touches nothing else, and the serialised bytes equal the model's.",
+         "All states within depth 7/8 and 4/5 entity creations (creations made by loads included) over create (immediate, deferred), mark, set component, delete (immediate, deferred), maintain, allocator.maintain, lazily requested markers (LazyBuilder::marked), serialise, deserialise of the world's own output and of two canned data sets from another world (one with ids above the counter); after every transition: live entities carry pairwise distinct marker ids, marking a marked entity returns its marker, a load updates known ids in place (same handle, components replaced, absent ones removed), creates entities only for unknown ids, touches nothing else, and the serialised bytes equal the model's.",
          "DESIGN.md §4 C15"),
  "C18": ("c18gen (tools/gen_derive.py + generated crate)", "program enumeration: every type definition of a bounded shape grammar compiled with the real derive macros, every value of a small domain checked against a generator-computed field-wise oracle",
-         "About 520 (quick) / 2500 (thorough) generated type definitions: named and tuple structs and enums with unit, tuple and named variants, 1-3 fields over Entity, u32, String, nested derived types, tuple, array, a type parameter (instantiated with Entity and u32) and fields that skip conversion (with and without a forwarded serde attribute), repeated types in every position, widths 10-12 with position-identifying values; for every value: convert_into must produce exactly the field-wise JSON computed by the generator, and JSON round trip + convert_from through a non-identity marker mapping must give the field-wise expected value; derive(Component): every storage attribute form x storage kind, generic and non-generic, the attribute before / between / after other attributes, global and relative paths inside a module that has its own specs::storage, checked by TypeId. A shape the derive no longer compiles is reported as a violation naming the type.",
+         "About 520 (quick) / 2500 (thorough) generated type definitions: named and tuple structs and enums with unit, tuple and named variants, 1-3 fields over Entity, u32, String, nested derived types, tuple, array, a type parameter (instantiated with Entity and u32) and fields that skip conversion (with and without a forwarded serde attribute), repeated types in every position, widths 10-12 with position-identifying values, field names that coincide with identifiers of the generated code (data, ids, ...); for every value: convert_into must produce exactly the field-wise JSON computed by the generator, and JSON round trip + convert_from through a non-identity marker mapping must give the field-wise expected value; derive(Component): every storage attribute form x storage kind, generic and non-generic, the attribute before / between / after other attributes, global and relative paths inside a module that has its own specs::storage, checked by TypeId. A shape the derive no longer compiles is reported as a violation naming the type.",
          "DESIGN.md §4 C18"),
  "C20": ("mc-det", "differential exhaustive exploration: every history of the quick-bound explorations executed twice (in-process, with an unrelated world in between) and digests recomputed in fresh processes",
          "Every history of the entity (E1), component (E2), lazy (E3), tracked-storage (hash-backed and dense kinds) and save/load explorations at reduced bounds, and every 3-entity save/load round trip with explicit marker ids, is executed twice in the same process — an unrelated world incl. caught destructor panics runs in between and the second execution follows unrelated allocations — and the complete transcripts (operation results, handles, join orders, event streams, serialised bytes, enabled operations, state keys) are compared; the folded transcript digests are recomputed in two fresh processes (new hash seeds, new address layout) and compared.",
          "DESIGN.md §4 C20"),
 }
 
-NOTE = "Bounded exhaustive exploration of the real implementation (no separate model to drift); trusted: hibitset, shred, shrev, crossbeam-queue, rayon, serde as dependencies; bounds are stated in the evidence file."
+NOTE = "Bounded exhaustive exploration of the real implementation (no separate model to drift); every BFS execution ends with a tail probe that applies the last operation a second time (state a defect hides outside the canonical key); trusted: hibitset, shred, shrev, crossbeam-queue, rayon, serde as dependencies; bounds are stated in the evidence file."
 
 def main():
     checks = []
